@@ -96,6 +96,7 @@ def execute(case, sched: Sched):
         async def runner(tid):
             me = tasks[tid]
             cms = []
+            prepared = []
             while True:
                 me["cmd"] = loop.create_future()
                 me["idle"] = True
@@ -109,7 +110,27 @@ def execute(case, sched: Sched):
                 step = scripts[tid][me["pos"]]
                 me["pos"] += 1
                 s = step["s"]
-                if s == "enter":
+                if s == "prepare":
+                    # the scope OBJECT is built now (here: under the task's current blocks) and entered by a later step
+                    insts, frame = [], {}
+                    for i, sv in enumerate(step["state"]):
+                        obj = P.make_state(sv)
+                        keep.append(obj)
+                        lbl = (tid, me["pos"], i)
+                        labels[id(obj)] = lbl
+                        insts.append(obj)
+                        frame.setdefault(sv["type"], []).append(lbl)
+                    prepared.append((step["kind"], ctx.scope("p", *insts), frame))
+                elif s == "enter_prepared":
+                    if prepared:
+                        kind, cm, frame = prepared.pop(0)
+                        if kind == "sync":
+                            cm.__enter__()
+                        else:
+                            await cm.__aenter__()
+                        cms.append((kind, cm))
+                        me["ref"].append(frame)
+                elif s == "enter":
                     insts = []
                     frame = {}
                     for i, sv in enumerate(step["state"]):
@@ -296,12 +317,22 @@ def strategy(tier):
             n = draw(st.integers(1, 3 if exhaustive else 6))
             steps = []
             depth = 0
+            pending_prepared = 0
             for _ in range(n):
-                kinds = ["enter", "enter", "probe_nodefault"]
+                kinds = ["enter", "enter", "probe_nodefault", "prepare"]
                 if depth > 0:
                     kinds += ["exit", "exit"]
+                if pending_prepared > 0:
+                    kinds += ["enter_prepared", "enter_prepared"]
                 k = draw(st.sampled_from(kinds))
-                if k == "enter":
+                if k == "prepare":
+                    steps.append({"s": "prepare", "kind": draw(st.sampled_from(["async", "sync"])), "state": draw(st.lists(sv, min_size=1, max_size=2))})
+                    pending_prepared += 1
+                elif k == "enter_prepared":
+                    steps.append({"s": "enter_prepared"})
+                    pending_prepared -= 1
+                    depth += 1
+                elif k == "enter":
                     steps.append({"s": "enter", "kind": draw(st.sampled_from(["async", "sync", "updated"])), "state": draw(st.lists(sv, min_size=1, max_size=2))})
                     depth += 1
                 elif k == "exit":
